@@ -163,6 +163,13 @@ def run(ctx):
     bt = umap.UMAP(n_neighbors=15, random_state=42, n_epochs=12).fit(T_by[0])
     for ops in [[("T", 1)], [("U", 3), ("T", 1), ("T", "train")], [("U", 3), ("I",), ("T", 2)], [("U", 3), ("U", 4), ("T", 1), ("T", "train")]]:
         run_history(ctx, pending, bt, [0], ops, T_by, "tiny n=8 < n_neighbors=15", feats, ncomp)
+    # unique=True on training data with repeated rows (graph_ has one vertex per distinct row, embedding_ one row per input row)
+    Q_by = dict(X_by_id)
+    Q_by[0] = X0.copy()
+    Q_by[0][50:58] = Q_by[0][:8]
+    bq = umap.UMAP(n_neighbors=8, random_state=42, n_epochs=12, unique=True).fit(Q_by[0])
+    for ops in [[("T", "train")], [("T", 1), ("T", "train"), ("T", 1)]]:
+        run_history(ctx, pending, bq, [0], ops, Q_by, "unique=True with repeated rows", feats, ncomp)
     # forced NN-descent model
     Xa, _ = gen.dataset(rng, 150, feats, kind="clusters")
     Xa_by = {0: Xa, 1: (Xa[:7] + 0.05).astype(np.float32), 2: (Xa[20:25] - 0.05).astype(np.float32),
